@@ -40,6 +40,7 @@ struct schema_opts_t
     bool allow_sclass{true}, allow_mclass{true}, allow_scalar{true}, allow_struct{true};
     int  max_classes{6};
     bool all_storage_types{false}; // scalar features over all 10 arithmetic storage types (else float32/float64/ints mix)
+    bool image_structs{false};     // some structured features are (channels, 3-4, 3-4) images (inputs of the gradient generator)
     // target: 0 none, 1 scalar regression, 2 sclass, 3 mclass, 4 struct regression, -1 random
     int target_kind{1};
 };
@@ -102,6 +103,12 @@ inline schema_t random_schema(rng_t& r, const schema_opts_t& o)
             if (d0 * d1 * d2 == 1)
             {
                 d0 = 2;
+            }
+            if (o.image_structs && r.coin(0.6))
+            {
+                d0 = r.range(1, 2);
+                d1 = r.range(3, 4);
+                d2 = r.range(3, 4);
             }
             s.features.push_back(feature_t{name}.scalar(random_scalar_type(r, o.all_storage_types), make_dims(d0, d1, d2)));
             break;
